@@ -128,6 +128,13 @@ def run(ck: Checker):
     check_size_bound(ck, 'C09-2', f, 'self.batch_size')
     check_deadline_shape(ck, 'C09-4', f, queue=BUF, wait_attr='self.batch_wait_time', size_attr='self.batch_size')
     check_wait_config(ck, 'C09-4', ck.repo.func(WORKER, 'Worker.__init__'), param='batch_wait_time', attr='self.batch_wait_time')
+    # ---------------------------------------------------------------- C09-10
+    # "no request waits": the thread that assembles the batches serves every request; a preprocess that fails for one
+    # request must not end it -- the failure becomes that request's value and the loop goes on (the C04-1 obligations)
+    from . import c04 as _c04
+
+    ck.rule('C09-10', 'the collector survives a failing request: every call of per-request user code (preprocess, call) in a service loop is inside a try whose handler for Exception — with no narrower handler re-raising part of it first — binds the exception as that request\'s value and stays in the loop (the C04-1 obligations)', minimum=3)
+    _c04.check_containment(ck, 'C09-10')
     # ---------------------------------------------------------------- C09-3
     check_one_destination(ck, 'C09-3')
     ck.rule('C09-9', 'the preprocess hook is looked up on the worker object when the service loop starts, not cached by Worker.__init__ (ORIGIN)', minimum=2)
